@@ -13,7 +13,7 @@ PRELUDE = "data = [4, 0, 7, 2]\ndef twice(v):\n    return v * 2\ndef check(v):\n
 
 
 # Findings whose shapes the families avoid (exclusion by construction); remove an id when it is fixed.
-AVOID = {"F-C01-01", "F-C01-02", "F-C01-03", "F-C01-04", "F-C01-05"}
+AVOID = {"F-C01-01", "F-C01-02", "F-C01-03", "F-C01-04", "F-C01-05", "F-C01-07"}
 
 
 class D:
@@ -488,6 +488,33 @@ def fam_layout(d):
     return body
 
 
+def fam_misc_rewrites(d):
+    """Idioms of the rules that the other families do not reach."""
+    it = d.pick(["(3, 4, 5)", "range(4)", "data", "[]"])
+    body = d.pick([
+        "print(list(y for y in (y for y in {it})))\nprint(sorted({{y for y in {{y for y in {it}}}}}))\nprint([y + 1 for y in [y for y in {it}]])\n",
+        "import itertools\nprint(sorted(set(itertools.chain(range(3), range(2, 5)))))\nprint(list(itertools.chain([1], {it})))\nprint(tuple(itertools.chain()))\n",
+        "print([*()], (*(),), [*[]], [*(), 1], {{*()}} == set(), [*{it}])\n",
+        "acc = []\nfor a in range(3):\n    m = list(range(a))\n    acc.extend(m)\nprint(acc)\nq = set()\nfor a in {it}:\n    m = frozenset(range(2, a))\n    q.update(m)\nprint(sorted(q))\n",
+        "print([*(x for x in {it})], (*(x for x in {it}),), {{*(x for x in {it})}} == set({it}))\n",
+        "x = {{z: 21 for z in range(3)}}\nx[10] = 100\nx[11] = twice(2)\nprint(x)\ny = {{z: z for z in {it}}}\ny.update({{7: 8}})\nprint(y)\n",
+        "print({{**{{}}}}, {{**{{}}, 13: 14}}, {{**{{1: 2}}, **{{3: 4}}}}, {{**{{1: 2}}, 1: 3}})\n",
+        "import io\ns = io.StringIO('abc')\nprint(s.read())\ns.close()\n",
+        "import re\nprint(re.findall('\\d+', '1234x23'), re.findall('\\+', '1+2'), len('a\\qb'))\n",
+        "x = {{twice(z) ** 2 for z in range(3)}}\nfor zua in range(3):\n    x.add(zua - 1)\nprint(sorted(x))\n",
+        ("v = None\nw = 0\nprint(v == None, v != None, w == None, (w == 0) == True, v is None)\n" if "F-C01-07" in AVOID
+         else "v = None\nw = 0\nprint(v == None, v != None, w == False, (w == 0) == True, v is None)\n"),
+        "def f(v):\n    if v > 1:\n        a = twice(v)\n        b = a + v\n        print(a, b, 'same tail')\n        print(b - a)\n    else:\n        a = twice(v + 1)\n        b = a + v + 1\n        print(a, b, 'same tail')\n        print(b - a)\n    return a\nprint(f(0), f(3))\n",
+        "import collections\nPoint = collections.namedtuple('Point', ['x', 'y'])\nprint(Point(1, 2).x)\n",
+        "# total = 0\n# for i in range(3):\n#     total += i\nvalue = 2\n# print(value)\nprint(value)  # print(value + 1)\n",
+        "print(math.sqrt(4), os.path.basename('a/b'), re.sub('a', 'b', 'aa'), Path('x').name, functools.reduce(lambda a, b: a + b, [1, 2]))\n",
+        "def early(v):\n    if v > 2:\n        res = 1\n    elif v > 0:\n        res = 2\n    else:\n        res = 3\n    return res\nprint(early(0), early(1), early(5))\n",
+        "def pick(v):\n    if v:\n        out = True\n    else:\n        out = False\n    if v > 3:\n        big = False\n    else:\n        big = True\n    return out, big\nprint(pick(0), pick(5))\n",
+        "class Res:\n    def get(self):\n        return 1\n    @staticmethod\n    def fixed():\n        return 2\n    @classmethod\n    def via(cls):\n        return cls.fixed() + 1\nprint(Res().get(), Res.fixed(), Res.via())\n",
+    ]).replace("{it}", it)
+    return _wrap(d, body)
+
+
 def fam_numpy(d):
     body = d.pick([
         "import numpy as np\na = np.array([[1, 2], [3, 4]])\nb = np.array([[5, 6], [7, 8]])\nprint(np.asarray([[sum(a[i, k] * b[k, j] for k in range(2)) for j in range(2)] for i in range(2)]).tolist())\n",
@@ -495,6 +522,8 @@ def fam_numpy(d):
         "import numpy as np\na = np.array([[1, 2], [3, 4]])\nprint(np.asarray([a[i] for i in range(len(a))]).tolist(), np.asarray([a[:, i] for i in range(a.shape[1])]).tolist())\n",
         "import numpy as np\na = np.array([[1, 2], [3, 4]])\nb = np.array([[0, 1], [1, 0]])\nprint(np.matmul(a.T, b.T).T.tolist(), a.T.T.tolist(), np.dot(a.T, b).tolist())\n",
         "import numpy as np\na = np.array([[1, 2], [3, 4]])\nb = np.array([[0, 1], [1, 0]])\nprint(np.asarray([[np.dot(b[:, i], a[j, :]) for i in range(b.shape[1])] for j in range(a.shape[0])]).tolist())\n",
+        "import numpy as np\na = np.array([[1, 2], [3, 4], [5, 6]])\nb = np.array([[0, 1, 2], [1, 0, 3]])\nu = np.array([[np.dot(a_, b_) for a_ in a] for b_ in b.T]).T\nv = np.array([[np.dot(b_, a_) for b_ in b.T] for a_ in a])\nprint(u.tolist(), v.tolist())\n",
+        "import numpy as np\na = np.array([[1, 2], [3, 4], [5, 6]])\nc = np.array([[1, 0], [2, 1]])\nv = np.array([[np.dot(c[i, :], a[j, :]) for i in range(c.shape[0])] for j in range(a.shape[0])])\nprint(v.tolist())\n",
     ])
     return body
 
@@ -507,7 +536,7 @@ FAMILIES = {
     "move_before_loop": fam_move_before_loop, "classes": fam_classes, "duplicates": fam_duplicates, "builtin_chains": fam_builtin_chains,
     "defaultdict": fam_defaultdict, "boolean": fam_boolean, "naming": fam_naming, "constants": fam_constants, "imports": fam_imports,
     "strings": fam_strings, "raise_from": fam_raise_from, "starred": fam_starred, "context_manager": fam_context_manager, "math": fam_math,
-    "layout": fam_layout,
+    "layout": fam_layout, "misc_rewrites": fam_misc_rewrites,
 }
 NUMPY_FAMILIES = {"numpy": fam_numpy}
 
